@@ -22,6 +22,16 @@ CHECKS = {
         text="Every generated ordered pair of real numbers (Integer, Rational, double, +-oo) is compared exactly in Python (doubles at their exact rational value) and all six relational constructors, their swapped forms and their symbolic forms instantiated by subs are judged against it. Exploration.",
         note="NaN/zoo/complex operands are outside the property. oo versus an infinite double of the same sign is not judged. Known finding KF-C29-02 (comparison through double subtraction) is excluded by a narrow matcher (values within one ulp / outside double range).",
         variants=["main"]),
+    "C01": dict(
+        engine="hy", technique="property-based testing: generated pools of expressions of every kind plus re-constructions along other API paths and exhaustive small per-class universes; all-pairs oracle eq => equal hash computed in the driver, and hash/ordered container consequences under two insertion orders",
+        text="For every ordered pair of each pool (generated members plus commuted / re-associated / round-tripped / near-miss re-constructions, and exhaustively enumerated small universes of intervals, finite sets, set operations, relationals, logic, functions, arithmetic, derivatives and numbers) eq implies equal hashes, and unordered_set / Add dictionary / std::set / std::map built from the pool never hold two eq keys nor lose a member. Exploration.",
+        note="eq itself is trusted (only its consistency with hashing is judged). Objects containing NaN doubles are excluded from the container laws. Polynomial and matrix-expression classes join the pools through the per-area checks, not here.",
+        variants=["main"]),
+    "C02": dict(
+        engine="hy", technique="property-based testing: the C01 pools; n x n matrices of __cmp__, eq and RCPBasicKeyLess from the driver, order axioms checked on all pairs and triples with boolean matrix products; ordered containers under two insertion orders",
+        text="On every pool: cmp takes values in {-1,0,1}, is zero exactly on eq pairs, antisymmetric and transitive (also across eq), RCPBasicKeyLess is a strict weak order whose equivalence is eq, comparisons never throw, and std::set/std::map iterate identically after different insertion orders. Small per-class universes are enumerated exhaustively, larger ones generated. Exploration.",
+        note="Members that contain NaN doubles (not equal to themselves) are excluded from the laws that presuppose reflexivity and counted.",
+        variants=["main"]),
 }
 
 NOT_APPLICABLE = {}
